@@ -968,6 +968,12 @@ def registries_for_description(wd, tier, seed, res, mc_module, fams, extra_const
     for e in read_ndjson(os.path.join(wd, "corpus.ndjson")):
         if len(e["reg"]) <= 40:
             regs.append({"fam": "corpus:" + e["name"], "reg": e["reg"]})
+    # closed sub-registries of real chain metadata (family G6)
+    meta = os.path.join(REPO, "artifacts", "polkadot_metadata.scale")
+    if os.path.exists(meta):
+        subprocess.run([VH, "polkadot", meta, os.path.join(wd, "polkadot.ndjson"), str(seed), str(40 if tier == "quick" else 600), "30"], check=True)
+        for e in read_ndjson(os.path.join(wd, "polkadot.ndjson")):
+            regs.append({"fam": "G6", "reg": e["reg"]})
     return regs
 
 
@@ -1027,11 +1033,15 @@ def example_check(prop, mode, tv_module, key, tier, seed, rule, settings=None):
         rest = [r for r in regs if r["fam"].startswith("G1a")]
         rnd.shuffle(rest)
         regs = keep + rest[:500]
+        rnd.shuffle(regs)      # alternate settings are assigned by position
     seeds = list(range(0, 4)) if tier == "quick" else list(range(0, 16))
     recs = [{"case": i, "fam": r["fam"], "reg": r["reg"], "ids": [], "seeds": seeds} for i, r in enumerate(regs)]
     if settings is not None:
-        for r in recs:
-            r["settings"] = settings
+        alt = json.loads(json.dumps(settings))
+        alt.update({"root": "runtime_types", "alloc_std": False, "alloc": {"k": "path", "lead": True, "segs": ["alloc"], "args": []},
+                    "compact": {"k": "path", "lead": False, "segs": ["crate", "codec", "Compact"], "args": []}})
+        for i, r in enumerate(recs):
+            r["settings"] = settings if i % 2 == 0 else alt
     write_ndjson(os.path.join(wd, "cases.ndjson"), recs)
     harness_run(mode, os.path.join(wd, "cases.ndjson"), os.path.join(wd, "obs.ndjson"), jobs=12, stall=30)
     obs = read_ndjson(os.path.join(wd, "obs.ndjson"))
